@@ -58,6 +58,7 @@ inductive Draw (α : Type) where
   | choice (i : Nat)      -- index chosen by random.choice(seq)
   | uniform (x : α)       -- result of random.uniform(a, b)
   | gauss (x : α)         -- result of random.gauss(0, 1)
+  | sample (idx : List Nat)  -- positions chosen by random.sample(seq, k), in order
 
 structure Config (α : Type) where
   dim : Nat
@@ -305,6 +306,219 @@ def evalMany (cfg : Config α) (period : Int) (basis : Option (List α → α)) 
       match evalMany cfg period basis xs st1 t1 with
       | none => none
       | some (outs, st2, t2) => some ((v, ch) :: outs, st2, t2)
+
+/-! ### `globalMaximum`, `maximums`, offline error (`:182-250`) -/
+
+/-- `a == b` on scalars, through `<` -/
+def feq (a b : α) : Bool := !(decide (a < b)) && !(decide (b < a))
+
+/-- Python `<` on lists of floats -/
+def listLt : List α → List α → Bool
+  | [], [] => false
+  | [], _ :: _ => true
+  | _ :: _, [] => false
+  | a :: as, b :: bs => if a < b then true else if b < a then false else listLt as bs
+
+/-- Python `<` on the tuples `(value, position)` -/
+def pairLt (p q : α × List α) : Bool :=
+  if p.1 < q.1 then true else if q.1 < p.1 then false else listLt p.2 q.2
+
+/-- the list `potential_max` of `globalMaximum` (`:185-190`): every peak function at its own centre -/
+def potentialMax (peaks : List (Peak α)) : List (α × List α) :=
+  peaks.map fun p => (peakValue p.fn p.pos p.pos p.height p.width, p.pos)
+
+/-- `globalMaximum()` (`:182-191`): `max` of the `(value, position)` tuples — the first maximal one;
+`none` without peaks (`ValueError`) -/
+def globalMaximum (peaks : List (Peak α)) : Option (α × List α) :=
+  match potentialMax peaks with
+  | [] => none
+  | a :: t => some (t.foldl (fun m v => if pairLt m v then v else m) a)
+
+/-- insertion into a list sorted in descending order, after the elements that are not smaller
+(`sorted(..., reverse=True)` is stable: equal elements keep their order) -/
+def insertDesc (x : α × List α) : List (α × List α) → List (α × List α)
+  | [] => [x]
+  | y :: t => if pairLt y x then x :: y :: t else y :: insertDesc x t
+
+def sortDesc (l : List (α × List α)) : List (α × List α) :=
+  l.foldl (fun acc x => insertDesc x acc) []
+
+/-- `maximums()` (`:193-207`): the peaks whose own centre value is not below the landscape there,
+sorted with the global maximum first -/
+def maximums (peaks : List (Peak α)) (basis : Option (List α → α)) : List (α × List α) :=
+  sortDesc ((potentialMax peaks).filter fun vp =>
+    match call peaks (basis.map fun f => f vp.2) vp.2 with
+    | none => false
+    | some c => !(decide (vp.1 < c)))
+
+/-- the offline-error registers `_optimum`, `_error`, `_offline_error` (`:174-177`) -/
+structure ErrState (α : Type) where
+  optimum : Option α
+  error : Option α
+  offline : α
+
+/-- Python `min(a, b)` : `b if b < a else a` -/
+def fmin (a b : α) : α := if b < a then b else a
+
+/-- the bookkeeping of one counted evaluation with fitness `v` (`:233-238`); `changed` = the evaluation
+triggered `changePeaks`, which forgets the optimum (`:332`).  `none`: no peak to take the optimum from. -/
+def errStep (peaks : List (Peak α)) (e : ErrState α) (v : α) (changed : Bool) : Option (ErrState α) :=
+  let refreshed : Option (α × Option α) :=
+    match e.optimum with
+    | some o => some (o, e.error)
+    | none => (globalMaximum peaks).map fun g => (g.1, some (abs (v - g.1)))
+  match refreshed with
+  | none => none
+  | some (o, err0) =>
+    match err0 with
+    | none => none
+    | some er =>
+      let er' := fmin er (abs (v - o))
+      some ⟨if changed then none else some o, some er', e.offline + er'⟩
+
+/-- `offlineError()` = `_offline_error / nevals` (`:246-247`); `ZeroDivisionError` before the first evaluation -/
+def offlineError (e : ErrState α) (nevals : Nat) : Option α :=
+  if nevals = 0 then none else some (e.offline / RealLike.ofNat nevals)
+
+/-! ### `MovingPeaks.__init__`, the `pfunc` argument (`:120-138`) and whole benchmark objects -/
+
+/-- the `pfunc` argument: a function object (`len(pfunc)` raises `TypeError`, `:136-138`) or a
+list / tuple of function objects (`:131-135`) -/
+inductive PFuncArg where
+  | one (f : PFunc)
+  | many (fs : List PFunc)
+  deriving DecidableEq, Repr
+
+/-- a well-formed answer of `random.sample(seq, k)` for `len(seq) = n`: `k` pairwise distinct positions below `n` -/
+def sampleOK (n k : Nat) (idx : List Nat) : Bool :=
+  idx.length == k && idx.all (· < n) && idx.eraseDups.length == idx.length
+
+/-- `:130-138` after fixes F33/F34: the functions of the initial peaks, the pool `pfunc_pool` from which
+`changePeaks` draws the functions of new peaks, and the rest of the tape.
+* one function: repeated `npeaks` times, pool of one;
+* a list of exactly `npeaks` functions: **a copy** of it (`list(pfunc)`, F33), the pool is the list;
+* any other list: `self.random.sample(pfunc, npeaks)` — `self.random` is assigned before (F34); the
+  positions drawn are the next draw of the tape; `random.sample` raises `ValueError` when the list is
+  shorter than `npeaks` (→ `none`). -/
+def initFunctions (pf : PFuncArg) (npeaks : Nat) (t : Tape α) : Option (List PFunc × List PFunc × Tape α) :=
+  match pf with
+  | .one f => some (List.replicate npeaks f, [f], t)
+  | .many fs =>
+    if fs.length = npeaks then some (fs, fs, t)
+    else if fs.length < npeaks then none
+    else match t with
+      | .sample idx :: t1 =>
+        if sampleOK fs.length npeaks idx then some (idx.filterMap (fs[·]?), fs, t1) else none
+      | _ => none
+
+/-- One benchmark object: configuration (with its `pfunc_pool`), `period`, basis function, peaks and
+evaluation counter.  Everything an operation reads or writes is in here: the model has value
+semantics, two objects share nothing. -/
+structure Bench (α : Type) where
+  cfg : Config α
+  period : Int
+  basis : Option (List α → α)
+  st : State α
+  err : ErrState α
+
+/-- `MovingPeaks(dim, random, **scenario)`: `base` carries the scalar parameters (its `pool` field is
+ignored and replaced by the pool `initFunctions` returns), `npeaks` is the initial number of peaks
+(the middle element when `npeaks` was given as `[min, initial, max]`, then `base.limits = some (min, max)`). -/
+def init (base : Config α) (period : Int) (basis : Option (List α → α)) (pf : PFuncArg) (npeaks : Nat)
+    (uniformHeight uniformWidth : α) (t : Tape α) : Option (Bench α × Tape α) :=
+  match initFunctions pf npeaks t with
+  | none => none
+  | some (fns, pool, t1) =>
+    match initPeaks base.dim fns uniformHeight uniformWidth t1 with
+    | none => none
+    | some (peaks, t2) => some (⟨{ base with pool := pool }, period, basis, ⟨peaks, 0⟩, ⟨none, none, RealLike.ofNat 0⟩⟩, t2)
+
+/-- what a user does with a benchmark object -/
+inductive Action (α : Type) where
+  | change                    -- `mp.changePeaks()`
+  | eval (x : List α)         -- `mp(x, count=False)`
+  | evalCount (x : List α)    -- `mp(x)`
+
+inductive Out (α : Type) where
+  | changed (npeaks : Nat)
+  | value (v : α)
+  | counted (v : α) (change : Bool) (nevals npeaks : Nat) (error : Option α)
+
+/-- one action on one benchmark object with its own random source -/
+def Bench.step (b : Bench α) (a : Action α) (t : Tape α) : Option (Bench α × Out α × Tape α) :=
+  match a with
+  | .change =>
+    match changePeaks b.cfg b.st.peaks t with
+    | none => none
+    | some (p', t') =>
+      some ({ b with st := ⟨p', b.st.nevals⟩, err := { b.err with optimum := none } }, .changed p'.length, t')
+  | .eval x =>
+    match call b.st.peaks (b.basis.map fun f => f x) x with
+    | none => none
+    | some v => some (b, .value v, t)
+  | .evalCount x =>
+    match evalCounted b.cfg b.period b.basis b.st x t with
+    | none => none
+    | some (v, ch, st', t') =>
+      match errStep b.st.peaks b.err v ch with
+      | none => none
+      | some e' => some ({ b with st := st', err := e' }, .counted v ch st'.nevals st'.peaks.length e'.error, t')
+
+/-- a benchmark object together with its random source -/
+structure Slot (α : Type) where
+  b : Bench α
+  tape : Tape α
+
+def Slot.step (s : Slot α) (a : Action α) : Option (Slot α × Out α) :=
+  match s.b.step a s.tape with
+  | none => none
+  | some (b', o, t') => some (⟨b', t'⟩, o)
+
+/-- a history of actions on one object -/
+def Slot.run : List (Action α) → Slot α → Option (Slot α × List (Out α))
+  | [], s => some (s, [])
+  | a :: as, s =>
+    match s.step a with
+    | none => none
+    | some (s1, o) =>
+      match Slot.run as s1 with
+      | none => none
+      | some (s2, os) => some (s2, o :: os)
+
+/-- several benchmark objects alive at the same time (e.g. built from one scenario dictionary and one
+list of peak functions) -/
+abbrev World (α : Type) := List (Slot α)
+
+/-- an action addressed to object `i` -/
+def World.step (w : World α) (i : Nat) (a : Action α) : Option (World α × Out α) :=
+  match w[i]? with
+  | none => none
+  | some s =>
+    match s.step a with
+    | none => none
+    | some (s', o) => some (w.set i s', o)
+
+/-- an interleaved history of actions on the objects of a world -/
+def World.run : List (Nat × Action α) → World α → Option (World α × List (Out α))
+  | [], w => some (w, [])
+  | (i, a) :: ops, w =>
+    match w.step i a with
+    | none => none
+    | some (w1, o) =>
+      match World.run ops w1 with
+      | none => none
+      | some (w2, os) => some (w2, o :: os)
+
+/-- `diversity(population)` (`:387-394`): the square root of the summed squared distances to the
+centroid; an empty population raises (`none`).  `zip` truncates to the first individual's length. -/
+def popDiversity (pop : List (List α)) : Option α :=
+  match pop with
+  | [] => none
+  | x0 :: _ =>
+    let zero : List α := List.replicate x0.length (RealLike.ofNat 0)
+    let tot := pop.foldl (fun d x => (d.zip x).map fun p => p.1 + p.2) zero
+    let mean := tot.map fun di => di / RealLike.ofNat pop.length
+    some (sqrt (sum ((pop.map fun x => (mean.zip x).map fun p => (p.1 - p.2) * (p.1 - p.2)).flatten)))
 
 /-- Python `int(round(x))` on a double: round half to even. -/
 def pyRoundFloat (x : Float) : Int :=
